@@ -4,10 +4,12 @@ mod pgen;
 mod grid;
 mod host;
 mod model;
+mod mutate;
 mod progexec;
 mod reduce;
 mod props;
 mod runner;
+mod untyped;
 mod worker;
 
 #[global_allocator]
